@@ -487,7 +487,7 @@ pub fn run(args: &Args) -> i32 {
     let mut rep = Report::new("C07", args.tier, args.seed, "model_checking");
     rep.exhaustive = true;
     rep.rule = format!(
-        "{n} concurrent requests on one connection; each request is healthy or suffers one fault of {{RESET(0x10c) after 0 / 1 / header-boundary / mid-DATA bytes, RESET(0) mid-frame, STOP_SENDING(0x10c), uppercase field name, missing :method/:status, LF in a value, section over the limit, FIN before HEADERS (server role)}}, healthy heads padded to exactly the configured limit; every assignment with at least one faulty and (when n allows) one healthy request, for a real server and a real client against a scripted peer that plays the streams round-robin in three writes each. Every execution with <= {bound} deviations (scheduling among handler/request tasks, driver and script; an application pause between any two calls of the request API; chunk cuts and delayed delivery on every request stream), plus one-byte-per-read. Oracle: healthy requests deliver exactly their own position-coded bytes and complete, their responses are complete on the wire; no close(); drivers report no error; each faulty request reports the stream-level error the property names and never a connection error. states = distinct (transport cursors, per-request progress) fingerprints; non-trivial = executions with a deviation."
+        "{n} concurrent requests on one connection; each request is healthy or suffers one fault of {{RESET(0x10c) after 0 / 1 / header-boundary / mid-DATA bytes, RESET(0) mid-frame, STOP_SENDING(0x10c), uppercase field name, missing :method/:status, LF in a value, section over the limit, FIN before HEADERS (server role)}}, healthy heads padded to exactly the configured limit; every assignment (including all healthy, and all faulty when homogeneous in the first two), for a real server and a real client against a scripted peer that plays the streams round-robin in three writes each. Every execution with <= {bound} deviations (scheduling among handler/request tasks, driver and script; an application pause between any two calls of the request API; chunk cuts and delayed delivery on every request stream), plus one-byte-per-read. Oracle: healthy requests deliver exactly their own position-coded bytes and complete, their responses are complete on the wire; no close(); drivers report no error; each faulty request reports the stream-level error the property names and never a connection error. states = distinct (transport cursors, per-request progress) fingerprints; non-trivial = executions with a deviation."
     );
     rep.assumptions = vec!["a STOP_SENDING that arrives after the sending half completed is not reported (ok accepted)".into(), "client role: a response stream FIN-ed before HEADERS is not in the fault set (DESIGN.md 7)".into()];
     rep.bound_note = format!("{n} requests, deviation bound {bound}");
@@ -526,9 +526,7 @@ pub fn run(args: &Args) -> i32 {
         }
         for c in combos {
             let faulty = c.iter().filter(|p| **p != Plan::Healthy).count();
-            if faulty == 0 {
-                continue;
-            }
+            // (the all-healthy assignment stays in: concurrent healthy requests must not disturb each other either)
             if n >= 3 && faulty == n && c[0] != c[1] {
                 continue; // keep all-faulty combos only when homogeneous in the first two (thorough size control)
             }
